@@ -19,6 +19,8 @@ def attach(run):
     if cl & {"C05", "C06", "C11.d"}:
         run.monitor = True
         mons.append(ScheduleMonitor(run))
+    if "C15" in cl and run.adapter.name == "td7":
+        mons.append(DeferredTrainingMonitor(run))
     if cl & {"C10.b", "C10.c"} and run.plan.get("supply_targets") and run.adapter.name in ("td3", "td3_lap"):
         mons.append(TargetActionMonitor(run))
     return mons
@@ -603,3 +605,74 @@ def changed_from(a, b):
         if n in a.leaves and a.h(n) != b.h(n):
             out.add(n)
     return out
+
+
+class DeferredTrainingMonitor:
+    """C15 inside train_td7: released train iterations vs environment steps of the assessment
+    window, checkpoint events vs the reference state machine; observed through env + logger."""
+
+    def __init__(self, run):
+        self.run = run
+
+    def finish(self):
+        from .ckptsim import AssessRef
+
+        run = self.run
+        c = run.plan["cfg"]
+        if run.logger is None or len(run.calls) != 1:
+            return
+        ls = c["learning_starts"]
+        gs = run.calls[0]["start"]
+        epoch = max(0, gs - ls)
+        ref = AssessRef(c["max_episodes_when_checkpointing"], c["steps_before_checkpointing"], c["reset_weight"])
+        per_iter = {}
+        for k, ev in run.log_events:
+            d = per_iter.setdefault(k, {"train": 0, "ckpt": 0, "ts": None})
+            if ev[0] == "stat" and ev[1] == "embedding loss":
+                d["train"] += 1
+            elif ev[0] == "stat" and ev[1] == "training steps":
+                d["ts"] = int(ev[2])
+            elif ev[0] == "epoch" and ev[1] == "actor_checkpoint":
+                d["ckpt"] += 1
+        ep_len, ep_ret = 0, 0.0
+        for s in run.env.steps():
+            k = gs + s["i"]
+            ep_len += 1
+            ep_ret += s["r"]
+            got = per_iter.get(k, {"train": 0, "ckpt": 0, "ts": None})
+            done = s["term"] or s["trunc"]
+            if not c["use_checkpoints"]:
+                want = 1 if k >= ls else 0
+                if got["train"] != want:
+                    run.V("C15.a", f"iteration {k}: {got['train']} train iterations, expected {want} (use_checkpoints=False: one per step after warm-up)")
+                    return
+                if got["ckpt"]:
+                    run.V("C15.c", f"iteration {k}: checkpoint event although use_checkpoints=False")
+                    return
+            else:
+                want, upd = 0, False
+                if done and k >= ls:
+                    upd, want, cut = ref.episode(ep_len, ep_ret, epoch)
+                    if cut:
+                        run.res.fault("assessment_cut_short")
+                    if ep_len > (k - ls + 1):
+                        run.res.fault("episode_straddles_warmup")
+                if got["train"] != want:
+                    run.V("C15.a", f"iteration {k}: {got['train']} train iterations released, the assessment window collected {want} environment steps (episode len {ep_len}, return {ep_ret}, epoch {epoch})")
+                    return
+                if want and got["ts"] != want:
+                    run.V("C15.a", f"iteration {k}: logged 'training steps'={got['ts']} but {want} were due")
+                    return
+                if bool(got["ckpt"]) != upd:
+                    run.V("C15.c", f"iteration {k}: checkpoint replaced={bool(got['ckpt'])}, reference says {upd} (episode return {ep_ret}, best minimum {ref.best})")
+                    return
+                if want:
+                    run.res.probe("releases")
+                if upd:
+                    run.res.probe("checkpoint_updates")
+                epoch += want
+            if done:
+                ep_len, ep_ret = 0, 0.0
+        if ref.switches:
+            run.res.fault("window_switch")
+        run.res.probe("td7_timelines")
